@@ -228,6 +228,11 @@ func (matrix *SparseFloat32Matrix) SetIdentity() {
       it.Get().Reset()
     }
   }
+  // diagonal entries that are not stored yet
+  n, m := matrix.Dims()
+  for i := 0; i < n && i < m; i++ {
+    matrix.At(i, i).Set(c)
+  }
 }
 func (matrix *SparseFloat32Matrix) Reset() {
   for it := matrix.Iterator(); it.Ok(); it.Next() {
